@@ -236,6 +236,11 @@ func (pkg *pkg) Print() error {
 }
 
 func (pkg *pkg) Delete() error {
+	if pkg.fullpath == "" {
+		// a package without source files of its own, for example a directory with only an
+		// external test package, has no directory: there is no derived.gen.go that belongs to it.
+		return nil
+	}
 	filename := pkg.Filename()
 	_, err := os.Stat(filename)
 	if err != nil {
